@@ -100,6 +100,10 @@ func zzC07_retry() {
 		fw = &zzFaultyWriter{}
 		n, err = m.WriteToWithRetry(fw, uint(retries))
 	}
+	vObserve("calls", uint64(fw.calls))
+	vObserve("n", uint64(n))
+	vObserve("err", zzB2U(err != nil))
+	vObserveBytes("accepted", fw.got)
 	vAssert(fw.calls <= retries+1, "at most retries+1 transport calls")
 	vAssert(int(n) == fw.sum, "returned count is the number of bytes the transport accepted")
 	vAssert(fw.afterErr == 0, "nothing is sent after a permanent error")
@@ -124,11 +128,11 @@ func (zzAddr) String() string  { return "10.1.2.3:3868" }
 
 // zzLockedConn is a transport that checks, inside Write, that the connection's write lock is held.
 type zzLockedConn struct {
-	w       *response
-	got     []byte
-	writes  int
+	w        *response
+	got      []byte
+	writes   int
 	unlocked int
-	closed  bool
+	closed   bool
 }
 
 func (c *zzLockedConn) Read(p []byte) (int, error) { return 0, &zzNetErr{} }
